@@ -10,6 +10,7 @@ import (
 	"path/filepath"
 	"sort"
 	"strings"
+	"sync"
 	"sync/atomic"
 	"testing"
 	"time"
@@ -159,6 +160,7 @@ func runCase(c *Case) (nontrivial int, err error) {
 		}
 		return nil
 	}
+	seq := make([]*seqObs, len(c.Reqs))
 	for i, r := range c.Reqs {
 		if len(c.Wrappers) >= 2 && !(r.Kind == "written" && r.Script.Status == 200) {
 			nontrivial++
@@ -219,6 +221,9 @@ func runCase(c *Case) (nontrivial int, err error) {
 		}
 		if cl := resp.Header.Get("Content-Length"); cl != "" && bodyAllowed(r.Method, resp.Status) && cl != fmt.Sprint(len(resp.Body)) {
 			return nontrivial, fmt.Errorf("%s: Content-Length %s but %d bytes on the wire", desc, cl, len(resp.Body))
+		}
+		if r.Kind == "error-nowrite" || r.Kind == "written" || r.Kind == "template" {
+			seq[i] = &seqObs{resp.Status, string(body), resp.Header.Get("X-Inner"), resp.Header.Get("X-Wrap")}
 		}
 		switch r.Kind {
 		case "error-nowrite":
@@ -297,7 +302,61 @@ func runCase(c *Case) (nontrivial int, err error) {
 			}
 		}
 	}
+	// the non-panicking requests once more, several at a time: a request's response
+	// must not depend on what the wrappers are doing for other requests meanwhile
+	var wg sync.WaitGroup
+	cerr := make(chan error, 8)
+	for g := 0; g < 6; g++ {
+		wg.Add(1)
+		go func(g int) {
+			defer wg.Done()
+			for k := range c.Reqs {
+				i := (k*5 + g*3) % len(c.Reqs)
+				r := c.Reqs[i]
+				if seq[i] == nil {
+					continue
+				}
+				s := r.Script
+				s.ID = fmt.Sprintf("q%d", atomic.AddInt64(&idSeq, 1))
+				hdr := [][2]string{{"X-Probe", probe.Encode(&s)}, {"Connection", "close"}}
+				if r.AE != "-" {
+					hdr = append(hdr, [2]string{"Accept-Encoding", r.AE})
+				}
+				if kv := strings.SplitN(r.Cond, ": ", 2); len(kv) == 2 {
+					hdr = append(hdr, [2]string{kv[0], kv[1]})
+				}
+				resp, rerr := srv.Once(addr, r.Method, srv.Request(r.Method, r.Path, "localhost", hdr, nil))
+				probe.Take(s.ID)
+				if rerr != nil {
+					continue
+				}
+				body, derr := decodeBody(resp)
+				if derr != nil {
+					body = []byte("undecodable: " + derr.Error())
+				}
+				got := seqObs{resp.Status, string(body), resp.Header.Get("X-Inner"), resp.Header.Get("X-Wrap")}
+				if got != *seq[i] {
+					select {
+					case cerr <- fmt.Errorf("request %d %s %s AE=%q kind=%s wrappers=%v answered differently while 5 other requests were in flight: status %d, %d decoded body bytes %q; on its own: status %d, %d bytes %q", i, r.Method, r.Path, r.AE, r.Kind, c.Wrappers, got.status, len(got.body), clip([]byte(got.body)), seq[i].status, len(seq[i].body), clip([]byte(seq[i].body))):
+					default:
+					}
+					return
+				}
+			}
+		}(g)
+	}
+	wg.Wait()
+	select {
+	case err := <-cerr:
+		return nontrivial, err
+	default:
+	}
 	return nontrivial, alive("the whole case")
+}
+
+type seqObs struct {
+	status             int
+	body, inner, xwrap string
 }
 
 func firstLine(logs, needle string) string {
